@@ -5,7 +5,7 @@ Nothing here is read by a registered check."""
 import json, os, re
 
 V = '/verif'
-ROUND = {1: 1, 2: 1, 3: 2, 4: 3, 5: 4, 6: 5, 7: 6, 8: 7, 9: 8, 10: 9, 11: 10, 12: 11}
+ROUND = {1: 1, 2: 1, 3: 2, 4: 3, 5: 4, 6: 5, 7: 6, 8: 7, 9: 8, 10: 9, 11: 10, 12: 11, 13: 12}
 res = {}
 for l in open(f'{V}/selftest/results.tsv', errors='replace'):
     p = l.rstrip('\n').split('\t')
@@ -35,7 +35,7 @@ for i in ids:
 n_det = sum(1 for i in ids if res.get(i, (0, None))[1])
 hdr = f"""# Seeded changes and what catches them
 
-Produced by independent sub-agents (each saw only the property record, a scratch worktree and, from round 2 on, the summaries of the earlier changes for the same property), confirmed with tools/confirm_mutant.sh, evaluated with tools/selftest.sh seeded (owning property, quick tier).  Round 1 = M1/M2, round 2 = M3, round 3 = M4, round 4 = M5, round 5 = M6, round 6 = M7, round 7 = M8, round 8 = M9, round 9 = M10, round 10 = M11, round 11 = M12.  Cross matrix of round 1 against all 18 checks: selftest/matrix.tsv.  Detected now: {n_det} of {len(ids)}; the note column says which ones the check missed as it stood when the change was written and what was changed.
+Produced by independent sub-agents (each saw only the property record, a scratch worktree and, from round 2 on, the summaries of the earlier changes for the same property), confirmed with tools/confirm_mutant.sh, evaluated with tools/selftest.sh seeded (owning property, quick tier).  Round 1 = M1/M2, round 2 = M3, round 3 = M4, round 4 = M5, round 5 = M6, round 6 = M7, round 7 = M8, round 8 = M9, round 9 = M10, round 10 = M11, round 11 = M12, round 12 = M13.  Cross matrix of round 1 against all 18 checks: selftest/matrix.tsv.  Detected now: {n_det} of {len(ids)}; the note column says which ones the check missed as it stood when the change was written and what was changed.
 
 | id | change (sub-agent summary) | needs | check | caught | note |
 |---|---|---|---|---|---|
